@@ -104,6 +104,7 @@ class Ctx:
         shutil.rmtree(self.work, ignore_errors=True)
         os.makedirs(self.work, exist_ok=True)
         self.violations = []
+        self.seen = []          # every record passed to violation(), also those matched by a known finding
         self.known_hits = {}
         self.cov = {
             "evaluations": 0,
@@ -374,6 +375,7 @@ class Ctx:
         """record: JSON-serialisable description sufficient to replay (must contain 'case')."""
         record = dict(record)
         record["property"] = self.pid
+        self.seen.append(record)
         for f in self.findings:
             if f.get("status") == "known" and finding_matches(f, record):
                 k = f["id"]
@@ -457,7 +459,7 @@ def finding_matches(f, rec):
     if not m:
         return False
     for k, want in m.items():
-        got = _get(rec, k)
+        got = json.dumps(rec, sort_keys=True) if k == "$json" else _get(rec, k)
         if isinstance(want, dict) and "regex" in want:
             if not isinstance(got, str) or not re.search(want["regex"], got):
                 return False
